@@ -120,6 +120,26 @@ def fmt_types_for(node, e, c, vals):
     return None
 
 
+_SIB = {}
+
+
+def sibling_codes(m, node, e, c):
+    """codes that the element at (e, c) may take in *any* node of this map with the same segment id"""
+    key = (id(m), node.id, e, c)
+    if key not in _SIB:
+        out = set()
+        for n in mapspec.walk(m):
+            if n.kind == 'segment' and n.id == node.id and e <= len(n.children):
+                ch = n.children[e - 1]
+                if ch.kind == 'composite':
+                    if c and c <= len(ch.children):
+                        out.update(ch.children[c - 1].codes)
+                else:
+                    out.update(ch.codes)
+        _SIB[key] = out
+    return _SIB[key]
+
+
 def enumerate_faults(m, doc, rng, charset, icvn, kinds=None, alphabet=None):
     """-> list of fault descriptors (dicts, JSON-able)"""
     out = []
@@ -140,6 +160,8 @@ def enumerate_faults(m, doc, rng, charset, icvn, kinds=None, alphabet=None):
             comp_present = comp is not None and any(x != '' for x in (get_val(vals, e, None) or []))
 
             def add(kind, new, expect_code, value=None):
+                if not neutral and isinstance(new, str) and new in sibling_codes(m, node, e, c):
+                    return        # the "wrong" qualifier is the right one of another node of this segment id: not a fault
                 nv = copy.deepcopy(vals)
                 set_val(nv, e, c, new)
                 out.append({'kind': kind, 'line': line, 'ele': e, 'comp': c, 'op': 'replace', 'new_vals': nv, 'code': expect_code,
